@@ -257,13 +257,38 @@ def write_value_alternatives(prog, op, ns):
         else:
             return None
     first = None
-    for f in forms(prog, v, 2, op.get("assumptions", ())):
-        alts = [(base, _drop_identity(base, d)) for base, d in struct_deltas(f)]
+    asm = op.get("assumptions", ())
+    for f in forms(prog, v, 2, asm):
+        alts = [(base, _drop_identity(base, {p_: _head_resolved(prog, x_, asm) for p_, x_ in d.items()})) for base, d in struct_deltas(f)]
         if first is None:
             first = alts
         if all(base[0] == "agg" or _loadish(base) for base, _ in alts):
             return alts
     return first
+
+
+def _head_resolved(prog, v, assumptions=()):
+    """a field's new value whose head is a local helper's result (`split(..).remaining`, `helper(..)?`): the
+    same value with the helper inlined in the current world, so that rules see the arithmetic"""
+    from engine.analysis import forms
+
+    def unresolved(x):
+        # a COMPONENT of a local helper's result: field (field ..) of [payload of] a local call
+        if x[0] != "field":
+            return False
+        y = x
+        while y[0] == "field":
+            y = y[1]
+        while y[0] in ("payload", "trybranch"):
+            y = y[1]
+        return y[0] == "call" and _body_of_call(prog, y) is not None
+
+    if not unresolved(v):
+        return v
+    for f in forms(prog, v, 3, assumptions):
+        if not unresolved(f):
+            return f
+    return v
 
 
 def _drop_identity(base, d):
@@ -439,7 +464,7 @@ def same(a, b):
     return same_any(_m.CURRENT, a, b)
 
 
-def same_any(prog, a, b, depth=2):
+def same_any(prog, a, b, depth=2, assumptions=()):
     """a and b denote the same value: identical as written, or identical in some pair of their
     inlining forms (one side may name a helper's result, the other spell the helper out)"""
     if a is None or b is None:
@@ -447,8 +472,8 @@ def same_any(prog, a, b, depth=2):
     if norm(a) == norm(b):
         return True
     from engine.analysis import forms
-    fb = [norm(f) for f in forms(prog, b, depth)]
-    return any(norm(f) in fb for f in forms(prog, a, depth))
+    fb = [norm(f) for f in forms(prog, b, depth, assumptions)]
+    return any(norm(f) in fb for f in forms(prog, a, depth, assumptions))
 
 
 def funds_coin(prog, t, denom_path=("protocol_chain_config", "ibc_token_denom")):
